@@ -52,8 +52,10 @@ def gen_cases(seed, tier):
                 for dtype in ((None,) if quick else (None, "float32", "float64")):
                     for bt in ((("logit", "probit", None)[vi % 3],) if quick else ("logit", "probit", None)):
                         ss = stream_seeds(seed, ID, 10000 + i)
+                        # dims 1-5: above 2 dimensions flowjax inserts key-dependent permutation layers (integer state)
                         cases.insert(k, {"run_index": 10000 + i, "flow_case": True, "backend": backend, "variant": var, "trained": trained, "dtype": dtype,
-                                         "bounded_transform": bt, "seed": ss["scenario"] % (1 << 30), "tier": tier})
+                                         "bounded_transform": bt, "seed": ss["scenario"] % (1 << 30), "tier": tier,
+                                         "dims": (3, 2, 5, 4, 1, 3)[k % 6]})
                         i += 1
                         k += 1
     return cases
@@ -68,7 +70,8 @@ def run_flow_case(case, workdir):
     from .c20 import FLOWS
 
     rng = rng_from(case["seed"])
-    t = make_target("gauss_box", 2, rng)
+    d = int(case.get("dims", 2))
+    t = make_target("gauss_box", d, rng)
     m = Model(t)
     fl, fit = FLOWS[case["backend"]]
     fl = dict(fl)
@@ -82,17 +85,17 @@ def run_flow_case(case, workdir):
 
         jax.config.update("jax_enable_x64", True)
         fl["key"] = jax.random.key(int(fl.pop("key_seed")))
-    A = Aspire(log_likelihood=SimLikelihood(m), log_prior=SimPrior(m), dims=2, parameters=t.parameters, prior_bounds=t.prior_bounds,
+    A = Aspire(log_likelihood=SimLikelihood(m), log_prior=SimPrior(m), dims=d, parameters=t.parameters, prior_bounds=t.prior_bounds,
                bounded_to_unbounded=case["bounded_transform"] is not None, bounded_transform=case["bounded_transform"] or "logit",
                flow_backend=backend, dtype=case["dtype"], **fl)
     lo, hi = np.asarray(t.lower), np.asarray(t.upper)
-    x = lo + (hi - lo) * rng.uniform(0.2, 0.8, size=(200, 2))
+    x = lo + (hi - lo) * rng.uniform(0.2, 0.8, size=(200, d))
     if case["trained"]:
         A.fit(Samples(x, parameters=t.parameters), **fit)
     else:
         A.init_flow()
         A.flow.fit_data_transform(A.flow.xp.asarray(x, dtype=A.flow.dtype))
-    probe = lo + (hi - lo) * rng.uniform(0.1, 0.9, size=(32, 2))
+    probe = lo + (hi - lo) * rng.uniform(0.1, 0.9, size=(32, d))
     lp0 = to_np(A.flow.log_prob(probe))
     path = os.path.join(workdir, "flow.h5")
     with AspireFile(path, "w") as f:
@@ -100,7 +103,7 @@ def run_flow_case(case, workdir):
         A.save_config(f, include_sampler_config=False)
     V = []
     w = {"kind": "flow", "backend": backend, "trained": case["trained"], "dtype": case["dtype"], "bounded_transform": case["bounded_transform"],
-         "variant": case.get("variant")}
+         "variant": case.get("variant"), "dims": d}
     try:
         B = Aspire.resume_from_file(path, log_likelihood=SimLikelihood(m), log_prior=SimPrior(m))
         lp1 = to_np(B.flow.log_prob(probe))
@@ -110,7 +113,7 @@ def run_flow_case(case, workdir):
         V.append(violation("c13.flow_reload_raised", f"reloading a saved {backend} flow (options {sorted(fl)}) raised {type(e).__name__}: {e}",
                            {**w, "error_type": type(e).__name__}, tb=traceback.format_exc()[-1500:]))
         return {"violations": V, "evaluations": 1, "events": 2, "probes": {}, "faults_fired": {"restart": 1},
-                "nontrivial_keys": [["flow", backend, case["trained"], case["dtype"], case["bounded_transform"], json.dumps(case.get("variant"), sort_keys=True)]],
+                "nontrivial_keys": [["flow", backend, case["trained"], case["dtype"], case["bounded_transform"], json.dumps(case.get("variant"), sort_keys=True), d]],
                 "digest": digest_of([lp0, [v["oracle"] for v in V]]), "sample": jsonable({"flow_case": w})}
     bits = 32 if "32" in str(getattr(A.flow, "dtype", lp0.dtype)) or "32" in str(lp0.dtype) else 64
     tol = dict(rtol=1e-4, atol=1e-4) if bits == 32 else dict(rtol=1e-9, atol=1e-9)
@@ -120,7 +123,7 @@ def run_flow_case(case, workdir):
     if str(lp0.dtype) != str(lp1.dtype):
         V.append(violation("c13.dtype", f"{backend} flow: log_prob dtype {lp0.dtype} became {lp1.dtype} after reload", w))
     return {"violations": V, "evaluations": 1, "events": 2, "probes": {"flow_roundtrips": 1}, "faults_fired": {"restart": 1},
-            "nontrivial_keys": [["flow", backend, case["trained"], case["dtype"], case["bounded_transform"], json.dumps(case.get("variant"), sort_keys=True)]],
+            "nontrivial_keys": [["flow", backend, case["trained"], case["dtype"], case["bounded_transform"], json.dumps(case.get("variant"), sort_keys=True), d]],
             "digest": digest_of([lp0, [v["oracle"] for v in V]]), "sample": jsonable({"flow_case": w})}
 
 
